@@ -92,6 +92,9 @@ func (r Resolver) FindDescriptorByName(n protoreflect.FullName) (protoreflect.De
 type Svc struct {
 	SD   protoreflect.ServiceDescriptor
 	Impl vschema.Impl
+	// Register, when set, registers a generated (non-dynamic) service
+	// instead; its descriptors are found in the global registry.
+	Register func(*grpc.Server)
 }
 
 // Backend is a running tagged back-end.
@@ -151,6 +154,10 @@ func StartDelayed(tag string, withReflection bool, reflDelay time.Duration, svcs
 	var files []protoreflect.FileDescriptor
 	seen := map[string]bool{}
 	for _, s := range svcs {
+		if s.Register != nil {
+			s.Register(gs)
+			continue
+		}
 		gs.RegisterService(vschema.ServiceDesc(s.SD, s.Impl), struct{}{})
 		if p := s.SD.ParentFile().Path(); !seen[p] {
 			seen[p] = true
